@@ -288,9 +288,11 @@ PROPS = {
                        "(the index lists exactly the bracket, comma and colon bytes outside strings, in order) is the bit layer proved for "
                        "the builders under C05 (units c05_simple, c05_simple_sse2, run again by this check).",
         "trusted_base": COMMON_TRUST + ["Verus 0.2026.09.13 + Z3", "seam R4: BalancedParens::find_close contract (unit c04_find), scan_select (c01_scan), select_in_word (Kani C02)"],
-        "assumptions": ["simple_wf: interest bits mark structural characters and BP pair j is 11/00/01 for the j-th structural character being an "
-                        "open/close/delimiter -- what the C05 builder proofs establish in fold form; the step from the fold form to this "
-                        "per-character form is argued, not machine-checked",
+        "assumptions": ["simple_wf (interest bits mark structural characters; BP pair j is 11/00/01 for the j-th structural character being an "
+                        "open/close/delimiter) is now DERIVED: unit c05_simple proves lemma_reference_is_simple_wf (is_reference, the builders' "
+                        "postcondition, implies simple_wf_raw -- the same spec fn, shared through speclib_simplewf.rs -- for texts up to 2^29 bytes); "
+                        "what remains read, not extracted, is the 3-statement plumbing of SimpleJsonIndex::build (count_bp_bits = 2 * sum of "
+                        "count_ones over the IB words, BalancedParens::new(semi.bp, that count), ib_len = json.len())",
                         "validity of the document is not used: the statements hold for every byte string and coincide with the JSON reading "
                         "of 'matching bracket' and 'value extent' on valid documents (that coincidence relies on the RFC 8259 grammar and is not proved)",
                         "Children / StructuralPositions iterators and from_parts/build plumbing not extracted; W monomorphised to Vec<u64>"],
